@@ -3,6 +3,7 @@ Helper lemmas for C14 (interpolation), over any linearly ordered field.
 -/
 import Compass.Proofs.Num
 import Compass.Model.Interp
+import Mathlib.Data.List.Forall2
 
 namespace Compass
 namespace Interp
@@ -865,6 +866,525 @@ theorem tril_affine (F : Nat → Nat → Nat → α) {x y z : List α} {p0 p1 p2
     · ring
     · intro i j xi yj hi hj
       rw [hF i j k xi yj zk hi hj hk]; ring
+
+/-! ### N-D -/
+
+/-- the sequential interpolation over all dimensions as a pure function: reversed list of
+`(lower, diff)`, indices consed onto the suffix (same operation order as `ndEvalRev`) -/
+def ndValRev (G : List Nat → α) : List (Nat × α) → List Nat → α
+  | [], suffix => G suffix
+  | (l, d) :: cs, suffix => lerp (ndValRev G cs (l :: suffix)) (ndValRev G cs ((l + 1) :: suffix)) d
+
+/-- a model cell against the `(lower, diff, extent)` of its dimension: either it is that cell, or the
+code fixed the index because the point is on a grid line — where the full formula gives the same -/
+def CellRel (c : Cell α) (t : Nat × α × Nat) : Prop :=
+  t.1 + 1 < t.2.2 ∧
+    (c = .cell t.1 t.2.1 ∨
+      ∃ pos, c = .fixed pos ∧ pos < t.2.2 ∧ ∀ v : Nat → α, lerp (v t.1) (v (t.1 + 1)) t.2.1 = v pos)
+
+theorem ndEvalRev_eq (get : List Nat → Res α) (G : List Nat → α) :
+    ∀ (rc : List (Cell α)) (rt : List (Nat × α × Nat)), List.Forall₂ CellRel rc rt →
+    ∀ (suffix ssh : List Nat), List.Forall₂ (· < ·) suffix ssh →
+      (∀ ix, List.Forall₂ (· < ·) ix ((rt.map (·.2.2)).reverse ++ ssh) → get ix = .ok (G ix)) →
+      ndEvalRev get rc suffix = .ok (ndValRev G (rt.map (fun t => (t.1, t.2.1))) suffix) := by
+  intro rc rt h
+  induction h with
+  | nil =>
+    intro suffix ssh hs hget
+    simpa [ndEvalRev, ndValRev] using hget suffix (by simpa using hs)
+  | @cons c t rc' rt' hct _ ih =>
+    intro suffix ssh hs hget
+    obtain ⟨l, d, s⟩ := t
+    have hget' : ∀ ix, List.Forall₂ (· < ·) ix ((rt'.map (·.2.2)).reverse ++ (s :: ssh)) →
+        get ix = .ok (G ix) := by
+      intro ix hix
+      apply hget
+      simpa [List.map_cons, List.reverse_cons, List.append_assoc] using hix
+    obtain ⟨hl, hc⟩ := hct
+    simp only at hl hc
+    rcases hc with rfl | ⟨pos, rfl, hpos, hv⟩
+    · simp only [ndEvalRev, List.map_cons, ndValRev]
+      rw [ih (l :: suffix) (s :: ssh) (List.Forall₂.cons (by omega) hs) hget',
+        ih ((l + 1) :: suffix) (s :: ssh) (List.Forall₂.cons hl hs) hget']
+      simp [Res.bind]
+    · simp only [ndEvalRev, List.map_cons, ndValRev]
+      rw [ih (pos :: suffix) (s :: ssh) (List.Forall₂.cons hpos hs) hget']
+      congr 1
+      exact (hv (fun i => ndValRev G (rt'.map (fun t => (t.1, t.2.1))) (i :: suffix))).symm
+
+/-- what `cellOf` selects (a default where it fails) -/
+def selOf (g : List α) (p : α) : Nat × α :=
+  match cellOf g p with
+  | .ok c => c
+  | _ => (0, 0)
+
+/-- per dimension: lower index, fraction, extent -/
+def triples : List (List α) → List α → List Nat → List (Nat × α × Nat)
+  | g :: gs, p :: ps, s :: ss => ((selOf g p).1, (selOf g p).2, s) :: triples gs ps ss
+  | _, _, _ => []
+
+/-- plan entry against model cell -/
+def PC (pl : Plan α) (c : Cell α) : Prop :=
+  (∃ pos, pl = .fixed pos ∧ c = .fixed pos) ∨ (∃ g p l d, pl = .free g (some p) ∧ c = .cell l d)
+
+theorem plan_cells_spec : ∀ (grid : List (List α)) (shape : List Nat) (pt : List α),
+    List.Forall₂ (fun g s => GoodGrid g ∧ g.length = s) grid shape → List.Forall₂ InAxis grid pt →
+    ∃ plan cells, ndPlan grid.length grid pt = .ok plan ∧ ndCells plan = .ok cells ∧
+      List.Forall₂ CellRel cells (triples grid pt shape) ∧ ndSliceOk cells shape = true ∧
+      List.Forall₂ PC plan cells ∧ List.Forall₂ (fun (_ : Plan α) s => 2 ≤ s) plan shape := by
+  intro grid shape pt hgs
+  induction hgs generalizing pt with
+  | nil =>
+    intro _
+    exact ⟨[], [], rfl, rfl, by simp [triples], rfl, List.Forall₂.nil, List.Forall₂.nil⟩
+  | @cons g s gs ss hg _ ih =>
+    intro hp
+    cases hp with
+    | @cons _ p _ ps hin hps =>
+      obtain ⟨plan, cells, h1, h2, h3, h4, h5, h6⟩ := ih ps hps
+      obtain ⟨gg, hlen⟩ := hg
+      obtain ⟨l, d, hc, sel⟩ := sel_of_inAxis gg hin
+      have hsel : selOf g p = (l, d) := by simp [selOf, hc]
+      have hne : g.isEmpty = false := by
+        cases g with
+        | nil => have := gg.2; simp at this
+        | cons _ _ => rfl
+      have hl := sel.lt_length
+      cases hpos : position (fun v => eqv v p) g with
+      | some pos =>
+        obtain ⟨v, hv, hq⟩ := position_some _ g pos hpos
+        simp only [eqv_iff] at hq
+        subst hq
+        have hposlt : pos < g.length := by
+          by_contra hn
+          rw [List.getElem?_eq_none (by omega)] at hv; cases hv
+        refine ⟨.fixed pos :: plan, .fixed pos :: cells, ?_, ?_, ?_, ?_, ?_, ?_⟩
+        · simp [ndPlan, hne, hpos, Res.bind, h1]
+        · simp [ndCells, h2, Res.bind]
+        · simp only [triples, hsel]
+          refine List.Forall₂.cons ⟨by simp only; omega, Or.inr ⟨pos, rfl, by simp only; omega, ?_⟩⟩ h3
+          intro w
+          exact sel.on_grid gg.1 pos hv w
+        · simp only [ndSliceOk, h4, Bool.and_true, decide_eq_true_eq]; omega
+        · exact List.Forall₂.cons (Or.inl ⟨pos, rfl, rfl⟩) h5
+        · exact List.Forall₂.cons (by have := gg.2; omega) h6
+      | none =>
+        refine ⟨.free g (some p) :: plan, .cell l d :: cells, ?_, ?_, ?_, ?_, ?_, ?_⟩
+        · simp [ndPlan, hne, hpos, Res.bind, h1]
+        · simp [ndCells, h2, hc, Res.bind]
+        · simp only [triples, hsel]
+          exact List.Forall₂.cons ⟨by simp only; omega, Or.inl rfl⟩ h3
+        · simp only [ndSliceOk, h4, Bool.and_true, decide_eq_true_eq]; omega
+        · exact List.Forall₂.cons (Or.inr ⟨g, p, l, d, rfl, rfl⟩) h5
+        · exact List.Forall₂.cons (by have := gg.2; omega) h6
+
+theorem viewLen_one : ∀ (plan : List (Plan α)) (shape : List Nat),
+    List.Forall₂ (fun (_ : Plan α) s => 2 ≤ s) plan shape → ndViewLen plan shape = 1 →
+    ∀ pl ∈ plan, ∃ pos, pl = .fixed pos := by
+  intro plan shape h
+  induction h with
+  | nil => intro _ pl hpl; cases hpl
+  | @cons pl s plan' shape' hs _ ih =>
+    intro hv q hq
+    cases pl with
+    | fixed pos =>
+      simp only [ndViewLen] at hv
+      rcases List.mem_cons.mp hq with rfl | hq'
+      · exact ⟨pos, rfl⟩
+      · exact ih hv q hq'
+    | free g p =>
+      simp only [ndViewLen] at hv
+      have := Nat.eq_one_of_mul_eq_one_right hv
+      omega
+
+theorem ndEvalRev_snoc_fixed (get : List Nat → Res α) (pos : Nat) : ∀ (rc : List (Cell α)) (suffix : List Nat),
+    ndEvalRev get (rc ++ [.fixed pos]) suffix = ndEvalRev (fun ix => get (pos :: ix)) rc suffix := by
+  intro rc
+  induction rc with
+  | nil => intro suffix; simp [ndEvalRev]
+  | cons c rc' ih =>
+    intro suffix
+    cases c with
+    | fixed q => simp only [List.cons_append, ndEvalRev]; exact ih _
+    | cell l d => simp only [List.cons_append, ndEvalRev]; rw [ih, ih]
+
+theorem allFixed_eval : ∀ (plan : List (Plan α)) (cells : List (Cell α)), List.Forall₂ PC plan cells →
+    (∀ pl ∈ plan, ∃ pos, pl = .fixed pos) → ∀ (get : List Nat → Res α) (suffix : List Nat),
+    ndEvalRev get cells.reverse suffix = get (ndFirstIndex plan ++ suffix) := by
+  intro plan cells h
+  induction h with
+  | nil => intro _ get suffix; simp [ndEvalRev, ndFirstIndex]
+  | @cons pl c plan' cells' hpc _ ih =>
+    intro hall get suffix
+    obtain ⟨pos, rfl⟩ := hall pl (List.mem_cons_self)
+    rcases hpc with ⟨q, hq, rfl⟩ | ⟨_, _, _, _, hq, _⟩
+    · cases hq
+      rw [List.reverse_cons, ndEvalRev_snoc_fixed,
+        ih (fun pl hpl => hall pl (List.mem_cons_of_mem _ hpl))]
+      simp [ndFirstIndex]
+    · cases hq
+
+/-- an N-D interpolator the property quantifies over: every axis a good grid of the table's extent,
+`G` the table -/
+structure ValidND (m : ND α) (G : List Nat → α) : Prop where
+  grids : List.Forall₂ (fun g s => GoodGrid g ∧ g.length = s) m.grid m.shape
+  get_ok : ∀ ix, List.Forall₂ (· < ·) ix m.shape → m.get ix = .ok (G ix)
+
+theorem triples_shape : ∀ (grid : List (List α)) (shape : List Nat) (pt : List α),
+    grid.length = shape.length → grid.length = pt.length →
+    (triples grid pt shape).map (·.2.2) = shape := by
+  intro grid
+  induction grid with
+  | nil => intro shape pt h1 _; cases shape with
+    | nil => simp [triples]
+    | cons _ _ => simp at h1
+  | cons g gs ih =>
+    intro shape pt h1 h2
+    cases shape with
+    | nil => simp at h1
+    | cons s ss =>
+      cases pt with
+      | nil => simp at h2
+      | cons p ps =>
+        simp only [triples, List.map_cons, List.cons.injEq, true_and]
+        exact ih ss ps (by simpa using h1) (by simpa using h2)
+
+/-- `InterpND::linear` on a valid interpolator and an in-range point: the full sequential
+interpolation over all dimensions (the grid-coincident shortcuts of the code give the same value) -/
+theorem linearN_ok (m : ND α) (G : List Nat → α) (pt : List α) (hv : ValidND m G)
+    (hp : List.Forall₂ InAxis m.grid pt) :
+    linearN m pt =
+      .ok (ndValRev G ((triples m.grid pt m.shape).map (fun t => (t.1, t.2.1))).reverse []) := by
+  obtain ⟨plan, cells, h1, h2, h3, h4, h5, h6⟩ := plan_cells_spec m.grid m.shape pt hv.grids hp
+  have hlen : m.grid.length = m.shape.length := hv.grids.length_eq
+  have hlen2 : m.grid.length = pt.length := hp.length_eq
+  have heval : ndEvalRev m.get cells.reverse [] =
+      .ok (ndValRev G ((triples m.grid pt m.shape).map (fun t => (t.1, t.2.1))).reverse []) := by
+    have := ndEvalRev_eq m.get G cells.reverse (triples m.grid pt m.shape).reverse
+      (List.rel_reverse h3) [] [] List.Forall₂.nil (by
+        intro ix hix
+        apply hv.get_ok
+        rw [List.map_reverse, List.reverse_reverse, List.append_nil,
+          triples_shape m.grid m.shape pt hlen hlen2] at hix
+        exact hix)
+    rw [this, List.map_reverse]
+  unfold linearN
+  simp only
+  rw [← hlen, h1]
+  simp only [Res.bind]
+  by_cases hvl : ndViewLen plan m.shape = 1
+  · rw [if_pos hvl]
+    have := allFixed_eval plan cells h5 (viewLen_one plan m.shape h6 hvl) m.get []
+    rw [List.append_nil] at this
+    rw [← this, heval]
+  · rw [if_neg hvl, h2]
+    simp only [h4, Bool.not_true, Bool.false_eq_true, if_false]
+    exact heval
+
+theorem forall₂_mem_right {β γ : Type} {R : β → γ → Prop} {l₁ : List β} {l₂ : List γ}
+    (h : List.Forall₂ R l₁ l₂) {b : γ} (hb : b ∈ l₂) : ∃ a ∈ l₁, R a b := by
+  induction h with
+  | nil => cases hb
+  | @cons a c l₁' l₂' hac _ ih =>
+    rcases List.mem_cons.mp hb with rfl | hb'
+    · exact ⟨a, List.mem_cons_self, hac⟩
+    · obtain ⟨a', ha', hr⟩ := ih hb'
+      exact ⟨a', List.mem_cons_of_mem _ ha', hr⟩
+
+theorem forall₂_mem_left {β γ : Type} {R : β → γ → Prop} {l₁ : List β} {l₂ : List γ}
+    (h : List.Forall₂ R l₁ l₂) {a : β} (ha : a ∈ l₁) : ∃ b ∈ l₂, R a b := by
+  induction h with
+  | nil => cases ha
+  | @cons a' c l₁' l₂' hac _ ih =>
+    rcases List.mem_cons.mp ha with rfl | ha'
+    · exact ⟨c, List.mem_cons_self, hac⟩
+    · obtain ⟨b, hb, hr⟩ := ih ha'
+      exact ⟨b, List.mem_cons_of_mem _ hb, hr⟩
+
+theorem prod_ge_two : ∀ (shape : List Nat), (∀ s ∈ shape, 2 ≤ s) → shape ≠ [] → 2 ≤ prod shape := by
+  intro shape
+  induction shape with
+  | nil => intro _ h; exact absurd rfl h
+  | cons s ss ih =>
+    intro h _
+    have hs : 2 ≤ s := h s (List.mem_cons_self)
+    cases ss with
+    | nil => simp [prod]; exact hs
+    | cons t ts =>
+      have := ih (fun x hx => h x (List.mem_cons_of_mem _ hx)) (by simp)
+      simp only [prod] at this ⊢
+      nlinarith
+
+theorem ValidND.ndim_eq {m : ND α} {G : List Nat → α} (hv : ValidND m G) : m.ndim = m.shape.length := by
+  unfold ND.ndim
+  by_cases he : m.shape = []
+  · simp [he, prod]
+  · have hall : ∀ s ∈ m.shape, 2 ≤ s := by
+      intro s hs
+      obtain ⟨g, _, hg⟩ := forall₂_mem_right hv.grids hs
+      have := hg.1.2
+      omega
+    have := prod_ge_two m.shape hall he
+    rw [if_neg (by omega)]
+
+theorem ndInGrid_ok : ∀ (grid : List (List α)) (pt : List α), List.Forall₂ InAxis grid pt →
+    ndInGrid grid.length grid pt = .ok () := by
+  intro grid pt h
+  induction h with
+  | nil => rfl
+  | @cons g p gs ps hgp _ ih =>
+    simp [ndInGrid, inAxis_true hgp, Res.bind, ih]
+
+theorem ndInGrid_err : ∀ (grid : List (List α)) (pt : List α), (∀ g ∈ grid, g ≠ []) →
+    grid.length = pt.length → ¬ List.Forall₂ InAxis grid pt →
+    ndInGrid grid.length grid pt = .err .outside := by
+  intro grid
+  induction grid with
+  | nil =>
+    intro pt _ hl h
+    cases pt with
+    | nil => exact absurd List.Forall₂.nil h
+    | cons _ _ => simp at hl
+  | cons g gs ih =>
+    intro pt hne hl h
+    cases pt with
+    | nil => simp at hl
+    | cons p ps =>
+      by_cases hgp : InAxis g p
+      · have : ¬ List.Forall₂ InAxis gs ps := fun h' => h (List.Forall₂.cons hgp h')
+        simp [ndInGrid, inAxis_true hgp, Res.bind,
+          ih ps (fun g hg => hne g (List.mem_cons_of_mem _ hg)) (by simpa using hl) this]
+      · simp [ndInGrid, inAxis_false (hne g (List.mem_cons_self)) hgp, Res.bind]
+
+theorem validateInputs_dn (m : ND α) (pt : List α) :
+    Interpolator.validateInputs (.dn m) pt =
+      if (m.ndim = 0 ∧ pt.length ≠ 0) ∨ (m.ndim ≠ 0 ∧ pt.length ≠ m.ndim) then .err .pointLen
+      else ndInGrid m.ndim m.grid pt := rfl
+
+theorem interpolate_dn_in (m : ND α) (G : List Nat → α) (pt : List α) (hv : ValidND m G)
+    (hp : List.Forall₂ InAxis m.grid pt) :
+    Interpolator.interpolate (.dn m) pt .linear = linearN m pt := by
+  have hn := hv.ndim_eq
+  have hlen : m.grid.length = m.shape.length := hv.grids.length_eq
+  have hlen2 : m.grid.length = pt.length := hp.length_eq
+  have hpl : ¬ ((m.ndim = 0 ∧ pt.length ≠ 0) ∨ (m.ndim ≠ 0 ∧ pt.length ≠ m.ndim)) := by
+    rw [hn]; omega
+  have hin : ndInGrid m.ndim m.grid pt = .ok () := by
+    rw [hn, ← hlen]; exact ndInGrid_ok m.grid pt hp
+  unfold Interpolator.interpolate
+  rw [validateInputs_dn, if_neg hpl, hin]
+  simp [Res.bind]
+
+theorem interpolate_dn_out (m : ND α) (G : List Nat → α) (pt : List α) (s : Strategy) (hv : ValidND m G)
+    (hl : pt.length = m.grid.length) (hp : ¬ List.Forall₂ InAxis m.grid pt) :
+    Interpolator.interpolate (.dn m) pt s = .err .outside := by
+  have hn := hv.ndim_eq
+  have hlen : m.grid.length = m.shape.length := hv.grids.length_eq
+  have hpl : ¬ ((m.ndim = 0 ∧ pt.length ≠ 0) ∨ (m.ndim ≠ 0 ∧ pt.length ≠ m.ndim)) := by
+    rw [hn]; omega
+  have hne : ∀ g ∈ m.grid, g ≠ [] := by
+    intro g hg
+    obtain ⟨s, _, hgs⟩ := forall₂_mem_left hv.grids hg
+    intro h
+    have := hgs.1.2
+    rw [h] at this; simp at this
+  have hin : ndInGrid m.ndim m.grid pt = .err .outside := by
+    rw [hn, ← hlen]; exact ndInGrid_err m.grid pt hne hl.symm hp
+  unfold Interpolator.interpolate
+  rw [validateInputs_dn, if_neg hpl, hin]
+  simp [Res.bind]
+
+/-! ### row-major tables -/
+
+theorem getElem?_flatten_rect {β : Type} : ∀ (f : List (List β)) (ny : Nat), (∀ r ∈ f, r.length = ny) →
+    ∀ (i j : Nat), j < ny → f.flatten[i * ny + j]? = (f[i]?).bind (·[j]?) := by
+  intro f
+  induction f with
+  | nil => intro ny _ i j _; simp
+  | cons r rs ih =>
+    intro ny h i j hj
+    have hr : r.length = ny := h r (List.mem_cons_self)
+    cases i with
+    | zero =>
+      simp only [List.flatten_cons, Nat.zero_mul, Nat.zero_add, List.getElem?_cons_zero, Option.bind_some]
+      rw [List.getElem?_append_left (by omega)]
+    | succ i =>
+      simp only [List.flatten_cons, List.getElem?_cons_succ]
+      rw [List.getElem?_append_right (by rw [hr]; nlinarith)]
+      have : (i + 1) * ny + j - r.length = i * ny + j := by
+        rw [hr, Nat.succ_mul]; omega
+      rw [this]
+      exact ih ny (fun r hr => h r (List.mem_cons_of_mem _ hr)) i j hj
+
+theorem getFlat_1 (n : Nat) (data : List α) (i : Nat) (hi : i < n) : getFlat [n] data [i] = idx data i := by
+  simp [getFlat, flatIndexAux, hi]
+
+theorem getFlat_2 (nx ny : Nat) (data : List α) (i j : Nat) (hi : i < nx) (hj : j < ny) :
+    getFlat [nx, ny] data [i, j] = idx data (i * ny + j) := by
+  simp [getFlat, flatIndexAux, hi, hj]
+
+theorem getFlat_3 (nx ny nz : Nat) (data : List α) (i j k : Nat) (hi : i < nx) (hj : j < ny) (hk : k < nz) :
+    getFlat [nx, ny, nz] data [i, j, k] = idx data ((i * ny + j) * nz + k) := by
+  simp [getFlat, flatIndexAux, hi, hj, hk]
+
+theorem idx_flatten_2 {f : List (List α)} {nx ny i j : Nat} (hr : Rect2 f nx ny) (hi : i < nx) (hj : j < ny) :
+    idx f.flatten (i * ny + j) = .ok (F2 f i j) := by
+  have h := idx2_ok hr hi hj
+  have hi' : i < f.length := by rw [hr.1]; exact hi
+  have hrow : (f[i]'hi').length = ny := hr.2 _ (List.getElem_mem hi')
+  have hj' : j < (f[i]'hi').length := by omega
+  unfold idx
+  rw [getElem?_flatten_rect f ny hr.2 i j hj]
+  simp [F2, List.getElem?_eq_getElem hi', List.getElem?_eq_getElem hj', List.getD_eq_getElem?_getD]
+
+theorem idx_flatten_3 {f : List (List (List α))} {nx ny nz i j k : Nat} (hr : Rect3 f nx ny nz)
+    (hi : i < nx) (hj : j < ny) (hk : k < nz) :
+    idx f.flatten.flatten ((i * ny + j) * nz + k) = .ok (F3 f i j k) := by
+  have hi' : i < f.length := by rw [hr.1]; exact hi
+  have hrow : Rect2 (f[i]'hi') ny nz := hr.2 _ (List.getElem_mem hi')
+  have hj' : j < (f[i]'hi').length := by rw [hrow.1]; exact hj
+  have hrow2 : ((f[i]'hi')[j]'hj').length = nz := hrow.2 _ (List.getElem_mem hj')
+  have hk' : k < ((f[i]'hi')[j]'hj').length := by omega
+  have hall : ∀ r ∈ f.flatten, r.length = nz := by
+    intro r hr'
+    obtain ⟨pl, hpl, hrp⟩ := List.mem_flatten.mp hr'
+    exact (hr.2 pl hpl).2 r hrp
+  have hall2 : ∀ r ∈ f, r.length = ny := fun r hr' => (hr.2 r hr').1
+  unfold idx
+  rw [getElem?_flatten_rect f.flatten nz hall (i * ny + j) k hk,
+    getElem?_flatten_rect f ny hall2 i j hj]
+  simp [F3, List.getElem?_eq_getElem hi', List.getElem?_eq_getElem hj', List.getElem?_eq_getElem hk',
+    List.getD_eq_getElem?_getD]
+
+/-- the row-major N-D interpolators over the data of a 1-D / 2-D / 3-D interpolator -/
+def nd1 (x f : List α) : ND α := { grid := [x], shape := [x.length], get := getFlat [x.length] f }
+def nd2 (x y : List α) (f : List (List α)) : ND α :=
+  { grid := [x, y], shape := [x.length, y.length], get := getFlat [x.length, y.length] f.flatten }
+def nd3 (x y z : List α) (f : List (List (List α))) : ND α :=
+  { grid := [x, y, z], shape := [x.length, y.length, z.length],
+    get := getFlat [x.length, y.length, z.length] f.flatten.flatten }
+
+def G1 (f : List α) : List Nat → α
+  | [i] => F1 f i
+  | _ => 0
+def G2 (f : List (List α)) : List Nat → α
+  | [i, j] => F2 f i j
+  | _ => 0
+def G3 (f : List (List (List α))) : List Nat → α
+  | [i, j, k] => F3 f i j k
+  | _ => 0
+
+theorem nd1_valid (x f : List α) (hx : GoodGrid x) (hf : x.length = f.length) : ValidND (nd1 x f) (G1 f) := by
+  refine ⟨List.Forall₂.cons ⟨hx, rfl⟩ List.Forall₂.nil, ?_⟩
+  intro ix hix
+  cases hix with
+  | @cons i _ _ _ hi hrest =>
+    cases hrest
+    simp only [nd1, G1]
+    rw [getFlat_1 _ _ _ hi, idx1_ok (by omega)]
+
+theorem nd2_valid (x y : List α) (f : List (List α)) (hx : GoodGrid x) (hy : GoodGrid y)
+    (hr : Rect2 f x.length y.length) : ValidND (nd2 x y f) (G2 f) := by
+  refine ⟨List.Forall₂.cons ⟨hx, rfl⟩ (List.Forall₂.cons ⟨hy, rfl⟩ List.Forall₂.nil), ?_⟩
+  intro ix hix
+  cases hix with
+  | @cons i _ _ _ hi hrest =>
+    cases hrest with
+    | @cons j _ _ _ hj hrest2 =>
+      cases hrest2
+      simp only [nd2, G2]
+      rw [getFlat_2 _ _ _ _ _ hi hj, idx_flatten_2 hr hi hj]
+
+theorem nd3_valid (x y z : List α) (f : List (List (List α))) (hx : GoodGrid x) (hy : GoodGrid y)
+    (hz : GoodGrid z) (hr : Rect3 f x.length y.length z.length) : ValidND (nd3 x y z f) (G3 f) := by
+  refine ⟨List.Forall₂.cons ⟨hx, rfl⟩ (List.Forall₂.cons ⟨hy, rfl⟩ (List.Forall₂.cons ⟨hz, rfl⟩
+    List.Forall₂.nil)), ?_⟩
+  intro ix hix
+  cases hix with
+  | @cons i _ _ _ hi hrest =>
+    cases hrest with
+    | @cons j _ _ _ hj hrest2 =>
+      cases hrest2 with
+      | @cons k _ _ _ hk hrest3 =>
+        cases hrest3
+        simp only [nd3, G3]
+        rw [getFlat_3 _ _ _ _ _ _ _ hi hj hk, idx_flatten_3 hr hi hj hk]
+
+theorem selOf_eq {g : List α} {p : α} {l : Nat} {d : α} (h : cellOf g p = .ok (l, d)) : selOf g p = (l, d) := by
+  simp [selOf, h]
+
+/-! ### multilinear functions in N dimensions -/
+
+/-- grid coordinates of an index list -/
+def coords : List (List α) → List Nat → List α
+  | g :: gs, i :: is => g.getD i 0 :: coords gs is
+  | _, _ => []
+
+/-- `M` is affine in each coordinate separately (a multilinear polynomial) -/
+def MultiAffine (M : List α → α) : Prop :=
+  ∀ (pre post : List α) (a b t : α),
+    M (pre ++ (a * (1 - t) + b * t) :: post) = M (pre ++ a :: post) * (1 - t) + M (pre ++ b :: post) * t
+
+theorem Sel.point_eq {g : List α} {p : α} {l : Nat} {d : α} (h : Sel g p l d) :
+    g.getD l 0 * (1 - d) + g.getD (l + 1) 0 * d = p := by
+  obtain ⟨a, b, ha, hb, hab, hd, _⟩ := h
+  have := lerp_affine a b p 1 0 (ne_of_lt hab)
+  rw [lerp_eq] at this
+  simp only [List.getD_eq_getElem?_getD, ha, hb, Option.getD_some, hd]
+  linarith
+
+theorem ndValRev_multiaffine (M : List α → α) (hM : MultiAffine M) :
+    ∀ (rq : List (List α × α × Nat × α)), (∀ q ∈ rq, Sel q.1 q.2.1 q.2.2.1 q.2.2.2) →
+    ∀ (sgrid : List (List α)) (suffix : List Nat),
+      ndValRev (fun ix => M (coords ((rq.map (·.1)).reverse ++ sgrid) ix)) (rq.map (·.2.2)) suffix =
+        M ((rq.map (·.2.1)).reverse ++ coords sgrid suffix) := by
+  intro rq
+  induction rq with
+  | nil => intro _ sgrid suffix; simp [ndValRev]
+  | cons q rq' ih =>
+    intro hsel sgrid suffix
+    obtain ⟨g, p, l, d⟩ := q
+    have hq : Sel g p l d := hsel (g, p, l, d) (List.mem_cons_self)
+    have hrest : ∀ q ∈ rq', Sel q.1 q.2.1 q.2.2.1 q.2.2.2 := fun q hq' => hsel q (List.mem_cons_of_mem _ hq')
+    have e : ((((g, p, l, d) :: rq').map (·.1)).reverse ++ sgrid) = ((rq'.map (·.1)).reverse ++ (g :: sgrid)) := by
+      simp
+    have e2 : ((((g, p, l, d) :: rq').map (·.2.1)).reverse ++ coords sgrid suffix)
+        = ((rq'.map (·.2.1)).reverse ++ p :: coords sgrid suffix) := by
+      simp
+    rw [e, e2]
+    simp only [List.map_cons, ndValRev]
+    rw [ih hrest (g :: sgrid) (l :: suffix), ih hrest (g :: sgrid) ((l + 1) :: suffix)]
+    simp only [coords, lerp_eq]
+    rw [← hM, hq.point_eq]
+
+/-- per dimension: grid, coordinate, selected cell -/
+def quads : List (List α) → List α → List (List α × α × Nat × α)
+  | g :: gs, p :: ps => (g, p, selOf g p) :: quads gs ps
+  | _, _ => []
+
+theorem quads_spec : ∀ (grid : List (List α)) (shape : List Nat) (pt : List α),
+    List.Forall₂ (fun g s => GoodGrid g ∧ g.length = s) grid shape → List.Forall₂ InAxis grid pt →
+    (triples grid pt shape).map (fun t => (t.1, t.2.1)) = (quads grid pt).map (·.2.2) ∧
+      (quads grid pt).map (·.1) = grid ∧ (quads grid pt).map (·.2.1) = pt ∧
+      ∀ q ∈ quads grid pt, Sel q.1 q.2.1 q.2.2.1 q.2.2.2 := by
+  intro grid shape pt hgs
+  induction hgs generalizing pt with
+  | nil => intro hp; cases hp; simp [triples, quads]
+  | @cons g s gs ss hg _ ih =>
+    intro hp
+    cases hp with
+    | @cons _ p _ ps hin hps =>
+      obtain ⟨h1, h2, h3, h4⟩ := ih ps hps
+      obtain ⟨l, d, hc, sel⟩ := sel_of_inAxis hg.1 hin
+      refine ⟨?_, ?_, ?_, ?_⟩
+      · simp [triples, quads, h1]
+      · simp [quads, h2]
+      · simp [quads, h3]
+      · intro q hq
+        simp only [quads, List.mem_cons] at hq
+        rcases hq with rfl | hq
+        · simp only [selOf_eq hc]; exact sel
+        · exact h4 q hq
 
 end
 end Interp
